@@ -123,7 +123,7 @@ def run(R, tier):
 
     # NEXT?: returns and removes the oldest entry; 0,"No error" on an empty queue
     bad = []
-    for k in range(0, 4):
+    for k in range(0, 8 if tier == "thorough" else 4):
         hb, before, rs = query("SystErrNextCommand", DM.Dev(esr=0x24, ese=1, sre=2, queue=entries(k), regs=regs()))
         ok = len(rs) == 1 and M.outcome(rs[0][0]) in ("Ok", "ret:finish") and rs[0][1].finished == 1 and len(rs[0][1].data) == 1
         if ok:
@@ -143,7 +143,7 @@ def run(R, tier):
         R.anchor_lost("R13.4", "impl Default for Error")
     # COUNt?
     bad = []
-    for k in range(0, 4):
+    for k in range(0, 8 if tier == "thorough" else 4):
         hb, before, rs = query("SystErrCountCommand", DM.Dev(esr=0x24, queue=entries(k), regs=regs()))
         ok = len(rs) == 1 and M.outcome(rs[0][0]) in ("Ok", "ret:finish") and len(rs[0][1].data) == 1 and isinstance(rs[0][1].data[0], K) and rs[0][1].data[0].v == k and state_of(rs[0][1]) == before
         if not ok:
@@ -151,7 +151,7 @@ def run(R, tier):
     R.check(not bad, "R13.5", "SYST:ERR:COUNt?", "answers the number of unread entries and removes nothing (0..3 entries)", "; ".join(bad[:3]), where=hb.span)
     # ALL?
     bad = []
-    for k in range(0, 5):
+    for k in range(0, 9 if tier == "thorough" else 5):
         hb, before, rs = query("SystErrAllCommand", DM.Dev(esr=0x24, queue=entries(k), regs=regs()))
         ok = len(rs) == 1 and M.outcome(rs[0][0]) in ("Ok", "ret:finish") and rs[0][1].finished == 1
         if ok:
@@ -227,7 +227,7 @@ def run(R, tier):
             bad.append(p.describe())
     R.check(not bad and n_err >= 1, "R13.9", "run->hook", "every error returned by Node::run went through Device::handle_error exactly once; successful messages never do", "a failing message can return without being reported to the device (or a successful one is reported): %s" % bad)
     from . import c12
-    c12.check_queues(R, "R13.10")
+    c12.check_queues(R, "R13.10", tier)
 
     # ---- R13.2 documented wiring ------------------------------------------------------------------------------------------
     check_wiring(R, "R13.2")
